@@ -173,3 +173,144 @@ def hodograph_halfplane(rows):
         if all(v[0] * u[0] + v[1] * u[1] > 0 for v in d):
             return True
     return False
+
+
+# ---------------------------------------------------------------- general curve-curve oracle (resultants)
+def _det(m):
+    """exact determinant (fraction-free Bareiss on Fractions)"""
+    m = [list(r) for r in m]
+    n = len(m)
+    sign, prev = 1, F(1)
+    for k in range(n - 1):
+        if m[k][k] == 0:
+            sw = next((i for i in range(k + 1, n) if m[i][k] != 0), None)
+            if sw is None:
+                return F(0)
+            m[k], m[sw] = m[sw], m[k]
+            sign = -sign
+        for i in range(k + 1, n):
+            for j in range(k + 1, n):
+                m[i][j] = (m[i][j] * m[k][k] - m[i][k] * m[k][j]) / prev
+        prev = m[k][k]
+    return sign * m[n - 1][n - 1]
+
+
+def _sylvester(p, q):
+    """Sylvester matrix of two polynomials given by power-basis coefficients (low to high), formal degrees len-1"""
+    dp, dq = len(p) - 1, len(q) - 1
+    n = dp + dq
+    rows = []
+    for i in range(dq):
+        rows.append([F(0)] * i + list(reversed(p)) + [F(0)] * (n - dp - 1 - i))
+    for i in range(dp):
+        rows.append([F(0)] * i + list(reversed(q)) + [F(0)] * (n - dq - 1 - i))
+    return rows
+
+
+def _interpolate(xs, ys):
+    """power-basis coefficients of the polynomial through (xs, ys) (Newton form expanded), exact"""
+    n = len(xs)
+    coef = list(ys)
+    for j in range(1, n):
+        for i in range(n - 1, j - 1, -1):
+            coef[i] = (coef[i] - coef[i - 1]) / (xs[i] - xs[i - j])
+    poly = [F(0)]
+    for k in range(n - 1, -1, -1):
+        # poly = poly * (x - xs[k]) + coef[k]
+        new = [F(0)] * (len(poly) + 1)
+        for i, c in enumerate(poly):
+            new[i + 1] += c
+            new[i] -= c * xs[k]
+        new[0] += coef[k]
+        poly = new
+    return ptrim(poly)
+
+
+def _resultant_poly(c1, c2):
+    """g(t) = Res_s(x1(s) - x2(t), y1(s) - y2(t)) as a polynomial in t (degree <= n1 n2), by evaluation + interpolation"""
+    n1, n2 = len(c1[0]) - 1, len(c2[0]) - 1
+    px, py = oq.to_power(c1[0]), oq.to_power(c1[1])
+    px += [F(0)] * (n1 + 1 - len(px)); py += [F(0)] * (n1 + 1 - len(py))
+    deg = n1 * n2
+    xs = [F(k, deg) if deg else F(0) for k in range(deg + 1)]
+    ys = []
+    for t in xs:
+        X, Y = oq.bernstein(c2[0], t), oq.bernstein(c2[1], t)
+        p = list(px); p[0] -= X
+        q = list(py); q[0] -= Y
+        ys.append(_det(_sylvester(p, q)))
+    return _interpolate(xs, ys)
+
+
+def _iso_roots(p):
+    """(lo, hi, exact) for the distinct roots of the square-free p in [0, 1]; exact roots at 0 / 1 flagged"""
+    out = []
+    if peval(p, F(0)) == 0:
+        out.append((F(0), F(0)))
+    for lo, hi in roots_in(p, F(0), F(1)):
+        if peval(p, hi) == 0:
+            out.append((hi, hi))
+        else:
+            out.append((lo, hi))
+    return out
+
+
+def curve_curve(c1, c2, max_product=16):
+    """All solutions of B1(s) = B2(t) in the unit square, or None when the configuration is not certified well conditioned
+    (overlap, tangency, a crossing through a self-intersection, near misses, crossings within 2^-10 of a parameter end that are
+    not exactly at the end, crossing angle below 2^-7, crossings closer than 2^-12).  Sorted list of (s, t), accurate to 2^-40."""
+    n1, n2 = len(c1[0]) - 1, len(c2[0]) - 1
+    if n1 < 1 or n2 < 1 or n1 * n2 > max_product:
+        return None
+    if n1 == 1:
+        r = line_curve(c1, c2)
+        return None if r is None else sorted(r)
+    if n2 == 1:
+        r = line_curve(c2, c1)
+        return None if r is None else sorted((s, t) for (t, s) in r)
+    g = _resultant_poly(c1, c2)       # in t
+    h = _resultant_poly(c2, c1)       # in s
+    if not g or not h or len(g) < 2 or len(h) < 2:
+        return None if (not g or not h) else []
+    if len(pgcd(g, pderiv(g))) > 1 or len(pgcd(h, pderiv(h))) > 1:
+        return None
+    ts, ss = _iso_roots(g), _iso_roots(h)
+    size = max(net_size(c1), net_size(c2))
+    res = []
+    used = set()
+    for (tl, th) in ts:
+        t = (tl + th) / 2
+        match = []
+        for j, (sl, sh) in enumerate(ss):
+            s = (sl + sh) / 2
+            d = residual(c1, c2, s, t)
+            if d <= size * F(1, 2 ** 34):
+                match.append(j)
+            elif d <= size * F(1, 2 ** 10):
+                return None             # near miss: not decidable at this accuracy
+        if len(match) > 1:
+            return None
+        if match:
+            j = match[0]
+            if j in used:
+                return None
+            used.add(j)
+            sl, sh = ss[j]
+            res.append(((sl + sh) / 2, t, sl == sh, tl == th))
+    out = []
+    for s, t, se, te in res:
+        for v, e in ((s, se), (t, te)):
+            if not e and (v < F(1, 2 ** 10) or 1 - v < F(1, 2 ** 10)):
+                return None
+        d1 = [n1 * oq.bernstein([c1[k][i + 1] - c1[k][i] for i in range(n1)], s) for k in range(2)]
+        d2 = [n2 * oq.bernstein([c2[k][i + 1] - c2[k][i] for i in range(n2)], t) for k in range(2)]
+        cr = d1[0] * d2[1] - d1[1] * d2[0]
+        if cr * cr * 2 ** 14 < (d1[0] ** 2 + d1[1] ** 2) * (d2[0] ** 2 + d2[1] ** 2):
+            return None
+        out.append((s, t))
+    out.sort()
+    for i in range(len(out)):
+        for j in range(i + 1, len(out)):
+            if abs(out[i][0] - out[j][0]) < F(1, 2 ** 12) and abs(out[i][1] - out[j][1]) < F(1, 2 ** 12):
+                return None
+    return out
